@@ -57,6 +57,12 @@ type Script struct {
 	CancelInWait int    `json:"cancelinwait,omitempty"` // >0: cancel during the wait after the k-th OnRetry (1-based), at half of the wait
 	DeadlineMs   int    `json:"deadlinems,omitempty"`   // >0: the request context has this deadline
 	BufMax       int    `json:"bufmax,omitempty"`
+	// NthConn > 0: the Client value is used for that many throw-away NewConnection calls first (a
+	// Client is documented as reusable: "used to initialize new connections to different servers")
+	NthConn int `json:"nthconn,omitempty"`
+	// Calls > 1: when Connect returns for a reason other than its context, it is called again on
+	// the same Connection, up to Calls times in total (each call is a reconnection attempt too)
+	Calls int `json:"calls,omitempty"`
 }
 
 // ---------------------------------------------------------------------------------------
@@ -91,6 +97,8 @@ type Trace struct {
 	ctxErrAtEnd        error
 	panicked           any
 	onRetryAfterCancel bool
+	connectCalls       int
+	finals             []error // results of the Connect calls before the last one
 }
 
 var (
@@ -143,6 +151,9 @@ func (a Attempt) readErr() error {
 
 const requestBody = "request-body-0123456789"
 
+// cancelMarker is the data of the event on which the consumer's callback cancels the request.
+const cancelMarker = "CANCEL-NOW"
+
 type scriptedBody struct {
 	tr     *Trace
 	a      Attempt
@@ -191,7 +202,7 @@ func (b *scriptedBody) Read(p []byte) (int, error) {
 		}
 		<-b.ctx.Done()
 		return 0, b.ctx.Err()
-	case "deadline":
+	case "deadline", "cbcancel":
 		<-b.ctx.Done()
 		return 0, b.ctx.Err()
 	default:
@@ -319,11 +330,19 @@ func run(t *testing.T, sc Script, setup func(conn *sse.Connection, tr *Trace)) (
 			body := &scriptedBody{tr: tr, a: a, ctx: r.Context(), cancel: cancel, t0: t0}
 			return &http.Response{StatusCode: 200, Header: http.Header{"Content-Type": {"text/event-stream"}}, Body: body, Request: r}, nil
 		})}
+		for i := 0; i < sc.NthConn; i++ {
+			_ = cl.NewConnection(req.Clone(ctx))
+		}
 		conn := cl.NewConnection(req)
 		if sc.BufMax > 0 {
 			conn.Buffer(nil, sc.BufMax)
 		}
 		conn.SubscribeToAll(func(e sse.Event) {
+			if e.Data == cancelMarker && tr.cancelledAt < 0 {
+				// the consumer has seen enough: it cancels from inside the callback
+				tr.cancelledAt = time.Since(t0)
+				cancel()
+			}
 			tr.events = append(tr.events, e)
 			tr.eventAttempt = append(tr.eventAttempt, len(tr.attempts)-1)
 		})
@@ -331,6 +350,15 @@ func run(t *testing.T, sc Script, setup func(conn *sse.Connection, tr *Trace)) (
 			setup(conn, tr)
 		}
 		tr.final = conn.Connect()
+		tr.connectCalls = 1
+		permanent := func(err error) bool {
+			return errors.Is(err, errReject) || errors.Is(err, sse.ErrNoGetBody) || errors.Is(err, errGetBody)
+		}
+		for tr.connectCalls < sc.Calls && ctx.Err() == nil && !permanent(tr.final) {
+			tr.finals = append(tr.finals, tr.final)
+			tr.final = conn.Connect()
+			tr.connectCalls++
+		}
 		tr.returnedAt = time.Since(t0)
 		tr.ctxErrAtEnd = ctx.Err()
 	})
